@@ -18,6 +18,7 @@ import Tyme.Driver.P19
 import Tyme.Driver.P06
 import Tyme.Driver.P12
 import Tyme.Driver.P03
+import Tyme.Driver.PEq
 -- IMPORTS (one driver module per property group)
 open Tyme.Driver
 
@@ -43,6 +44,7 @@ def execOpAll (op : String) (a : List Int) : String :=
     <|> (P14b.execOp op a)
     <|> (P17.execOp op a)
     <|> (P13.execOp op a)
+    <|> (PEq.execOp op a)
     -- DISPATCH-EXEC   <|> (Pxx.execOp op a)
   match r with
   | none => "bad-op"
@@ -70,6 +72,7 @@ def specOpAll (op : String) (a : List Int) : String :=
     <|> (P14b.specOp op a)
     <|> (P17.specOp op a)
     <|> (P13.specOp op a)
+    <|> (PEq.specOp op a)
     -- DISPATCH-SPEC   <|> (Pxx.specOp op a)
   match r with
   | none => "n/a"
